@@ -75,6 +75,8 @@ Pure(op, q) == /\ s' = s
 \* iterate over the set, removing the element being visited when it is in F;
 \* the visit sequence is the outcome
 IterRemove(F) == s' = Drop(s, F) /\ res' = SeqRes(s)
+\* the same walking backwards (reversed)
+RevIterRemove(F) == s' = Drop(s, F) /\ res' = SeqRes(Reverse(s))
 
 \* comparison with an ordered collection holding q (duplicate-free)
 Eq(q) == s' = s /\ res' = Bool(s = q)
@@ -91,7 +93,7 @@ Next == \/ \E x \in Elem : Add(x) \/ Discard(x) \/ Remove(x)
         \/ PopLast \/ PopFirst \/ Clear
         \/ \E q \in Args : IOr(q) \/ IAnd(q) \/ ISub(q) \/ IXor(q) \/ New(q)
         \/ \E q \in DArgs : (\E op \in PureOps : Pure(op, q)) \/ Eq(q) \/ Ne(q)
-        \/ \E F \in SUBSET Elem : IterRemove(F)
+        \/ \E F \in SUBSET Elem : IterRemove(F) \/ RevIterRemove(F)
         \/ \E op \in PureOps : ISelf(op)
 
 Spec == Init /\ [][Next]_vars
